@@ -3,13 +3,13 @@ CONSTANTS
   FinalSortBySpan = TRUE
   DedupePrefersNonRef = TRUE
   SweepCovers = TRUE
-  P = 5
+  P = 4
   MaxNon = 3
-  Focus = "wide"
+  Focus = "unit"
   MaxRef = 2
 INVARIANT Sorted
 INVARIANT Disjoint
 INVARIANT NonRefsKept
 INVARIANT Idempotent
-INVARIANT Emit
+INVARIANT EmitDeep
 CHECK_DEADLOCK FALSE
